@@ -271,6 +271,26 @@ def run_shard(ctx):
                 S = list(dict.fromkeys([seed_] + nb + S))[: max(2, size)]
             apply_ops(ctx, gd, S, True, ops=huge_ops)
     ctx.extras["huge_sparse_graphs"] = nhuge
+    # 2e. scale: a ladder with 2^48 directed paths and a chain of 1500 nodes, every operation under a budget of Python
+    # function activations (a walk path by path, or a recursion over the path length, does not come back)
+    from .c02 import scale_graph
+
+    for j, (name, budget) in enumerate((("ladder48", 40_000_000), ("chain1500", 400_000_000))):
+        if not ctx.mine(5 * j + 2):
+            continue
+        gd_, q_ = scale_graph(name)
+        gd_ = dict(gd_, hostile="scale:" + name)
+        ops_ = set(SET_OPS) | {"districts", "topological_sort", "pre"} | ({"get_nodes_in_directed_paths"} if name.startswith("ladder") else set())
+        for S_ in ([q_["X"][0]], [q_["Y"][0]], [q_["X"][0], gd_["nodes"][len(gd_["nodes"]) // 2]]):
+            try:
+                with kernel.step_budget(budget) as sb:
+                    apply_ops(ctx, gd_, S_, True, ops=ops_)
+                key_ = f"C14:scale-max-function-activations:{name}"
+                kernel.LOG.counters[key_] = max(kernel.LOG.counters[key_], sb.used)
+            except kernel.BudgetExceeded:
+                kernel.violation(PROP, "bounded-progress", f"the operations on the {name} graph with S={S_} used more than "
+                                 f"{budget} function activations", case={"scale": name, "S": S_})
+        kernel.count("C14:scale-graphs")
     # 3. histories
     for _ in range(ctx.share({"quick": 240, "thorough": 3000}[ctx.tier])):
         gd = gg.random_admg(rng, rng.randint(3, 7))
